@@ -24,10 +24,10 @@ import (
 	"fmt"
 	"os"
 	"regexp"
-	"sort"
 	"strings"
 
 	"github.com/kaptinlin/gozod"
+	"github.com/kaptinlin/gozod/coerce"
 	"github.com/kaptinlin/gozod/core"
 	"github.com/kaptinlin/gozod/locales"
 	"github.com/kaptinlin/gozod/types"
@@ -194,6 +194,24 @@ func leaves() []leaf {
 		{id: "small-slice-nonempty", kind: "too_small:array", raiser: "Slice.NonEmpty", chk: true, sch: true, code: core.TooSmall, input: []any{},
 			build: func(c, s []any) core.ZodSchema { return gozod.Slice[any](gozod.String(), s...).NonEmpty(c...) }, repro: `Slice[any](String(),sch).NonEmpty(chk).Parse([])`},
 
+		// ---- issues raised on DERIVED inputs: a prefault value, a coerced value, an overwritten (trimmed) value
+		{id: "small-string-prefault", kind: "too_small:string", raiser: "String.Min on a prefault value", chk: true, sch: true, code: core.TooSmall, input: nil,
+			build: func(c, s []any) core.ZodSchema { return gozod.String(s...).Min(5, c...).Prefault("a") }, repro: `String(sch).Min(5,chk).Prefault("a").Parse(nil)`},
+		{id: "small-int-prefault", kind: "too_small:number", raiser: "Int.Min on a prefault value", chk: true, sch: true, code: core.TooSmall, input: nil,
+			build: func(c, s []any) core.ZodSchema { return gozod.Int(s...).Min(5, c...).Prefault(1) }, repro: `Int(sch).Min(5,chk).Prefault(1).Parse(nil)`},
+		{id: "small-slice-prefault", kind: "too_small:array", raiser: "Slice.Min on a prefault value", chk: true, sch: true, code: core.TooSmall, input: nil,
+			build: func(c, s []any) core.ZodSchema {
+				return gozod.Slice[any](gozod.String(), s...).Min(2, c...).Prefault([]any{"a"})
+			}, repro: `Slice[any](String(),sch).Min(2,chk).Prefault(["a"]).Parse(nil)`},
+		{id: "type-object-field-prefault", kind: "invalid_type", raiser: "Object field on a prefault value", sch: true, code: core.InvalidType, input: nil,
+			build: func(c, s []any) core.ZodSchema {
+				return gozod.Object(core.ObjectSchema{"a": gozod.String(s...)}).Prefault(map[string]any{"a": 1})
+			}, repro: `Object({a:String(sch)}).Prefault({"a":1}).Parse(nil)`},
+		{id: "small-string-coerced", kind: "too_small:string", raiser: "CoercedString.Min on a coerced value", chk: true, sch: true, code: core.TooSmall, input: 12,
+			build: func(c, s []any) core.ZodSchema { return coerce.String(s...).Min(5, c...) }, repro: `CoercedString(sch).Min(5,chk).Parse(12)`},
+		{id: "small-string-trimmed", kind: "too_small:string", raiser: "String.Trim.Min on an overwritten value", chk: true, sch: true, code: core.TooSmall, input: "  a   ",
+			build: func(c, s []any) core.ZodSchema { return gozod.String(s...).Trim().Min(5, c...) }, repro: `String(sch).Trim().Min(5,chk).Parse("  a   ")`},
+
 		// ---- custom
 		{id: "custom-refine-string", kind: "custom", raiser: "String.Refine", chk: true, sch: true, code: core.Custom, input: "x",
 			build: func(c, s []any) core.ZodSchema {
@@ -269,24 +287,29 @@ func maskStr(m int) string {
 
 func constant(s string) core.ZodErrorMap { return func(core.ZodRawIssue) string { return s } }
 
-// findIssue looks for an issue with the wanted code: top level first, then sub-issues.
+// findIssue looks for the DEEPEST issue with the wanted code (the leaf's issue lies below every issue the wrappers
+// raise around it: sub-issues of invalid_element, branch errors of invalid_union), first in order among equals.
 func findIssue(list []core.ZodIssue, code core.IssueCode) (core.ZodIssue, bool) {
+	is, d := findIssueDepth(list, code, 0)
+	return is, d >= 0
+}
+
+func findIssueDepth(list []core.ZodIssue, code core.IssueCode, depth int) (best core.ZodIssue, bestDepth int) {
+	bestDepth = -1
 	for _, is := range list {
-		if is.Code == code {
-			return is, true
+		if is.Code == code && bestDepth < depth {
+			best, bestDepth = is, depth
 		}
-	}
-	for _, is := range list {
-		if x, ok := findIssue(is.Issues, code); ok {
-			return x, true
+		if x, d := findIssueDepth(is.Issues, code, depth+1); d > bestDepth {
+			best, bestDepth = x, d
 		}
 		for _, br := range is.Errors {
-			if x, ok := findIssue(br, code); ok {
-				return x, true
+			if x, d := findIssueDepth(br, code, depth+1); d > bestDepth {
+				best, bestDepth = x, d
 			}
 		}
 	}
-	return core.ZodIssue{}, false
+	return best, bestDepth
 }
 
 func runCell(lf leaf, w wrapper, mask int) (winner string, issue core.ZodIssue, found bool) {
@@ -365,6 +388,10 @@ func runCellWith(lf leaf, w wrapper, mask, silent int, asFuncs bool) (winner str
 		return "e", is, true
 	}
 	return "d", is, true
+}
+
+func sigOf(is core.ZodIssue) string {
+	return fmt.Sprintf("%s|%s|%s|%s|%v|%v", is.Code, is.Expected, is.Origin, is.Format, is.Minimum, is.Maximum)
 }
 
 // ---------------------------------------------------------------- locale catalogue
@@ -455,14 +482,25 @@ func kindKey(code core.IssueCode, props map[string]any) string {
 // ---------------------------------------------------------------- main
 
 func run(c hx.Config) error {
+	if len(c.Args) >= 2 && c.Args[0] == "gen-sites" {
+		// source-only translator: the static catalogue of issue sites (sites.go)
+		return genSites(c.Args[1], c.OutDir)
+	}
 	o, err := hx.NewOut(c.OutDir)
 	if err != nil {
 		return err
 	}
-	lvs, wrs := leaves(), wrappers()
+	lvs, wrs := leaves(), append(wrappers(), deepWrappers()...)
+	one := wrs // the one-level wrappers (top + 13 positions)
+	kindsPath := ""
+	for _, a := range c.Args {
+		if strings.HasPrefix(a, "kinds=") {
+			kindsPath = a[len("kinds="):]
+		}
+	}
 	if c.Thorough() {
 		// two levels of nesting: every wrapper inside every wrapper
-		base := wrs
+		base := wrappers()
 		for _, outer := range base[1:] {
 			for _, inner := range base[1:] {
 				outer, inner := outer, inner
@@ -474,6 +512,20 @@ func run(c hx.Config) error {
 				})
 			}
 		}
+	}
+
+	// random nesting chains of depth 2-4 over all 13 positions (both tiers)
+	chainIDs := map[string]bool{}
+	for _, w := range randomChains(c, one) {
+		if !chainIDs[w.id] {
+			chainIDs[w.id] = true
+			wrs = append(wrs, w)
+		}
+	}
+	isChain := func(id string) bool { return chainIDs[id] }
+	isDeep := map[string]bool{}
+	for _, w := range deepWrappers() {
+		isDeep[w.id] = true
 	}
 
 	// sanity: every leaf raises its issue at top level with nothing configured
@@ -490,6 +542,8 @@ func run(c hx.Config) error {
 	}
 
 	var wiring []string
+	topSig := map[string]string{}
+	visible := map[string]bool{} // sites whose leaf issue is in the error (and is the leaf's)
 	catalogue := map[string]core.ZodRawIssue{}
 	for _, lf := range lvs {
 		for _, w := range wrs {
@@ -507,15 +561,33 @@ func run(c hx.Config) error {
 				o.Count("skipped:parse-panics:" + site)
 				continue
 			}
-			if base == "n" && strings.Contains(w.id, ">") {
-				// an outer container re-wraps an Array's invalid_element issue and drops its sub-issues:
-				// the leaf issue is not observable in the error, so there is no message to attribute
+			if _, bis, ok := runCell(lf, w, 0); ok && w.id == "top" {
+				topSig[lf.id] = sigOf(bis)
+			} else if ok && (strings.Contains(w.id, ">") || isDeep[w.id]) && sigOf(bis) != topSig[lf.id] {
+				// the position answers the input itself (LazyAny on a nil input raises its own invalid_type): what is found is
+				// not the leaf's issue
 				o.Count("skipped:leaf-issue-not-visible:" + w.id)
 				continue
 			}
+			if base == "n" && (strings.Contains(w.id, ">") || isDeep[w.id]) {
+				// an outer container re-wraps an Array's invalid_element issue and drops its sub-issues; record-key: the leaf's
+				// input is not a string, it cannot be a key; lazy / pipe: LazyAny's schemaWrapper does not forward to container
+				// schemas: the leaf issue is not in the error at all, so there is no message to attribute
+				o.Count("skipped:leaf-issue-not-visible:" + w.id)
+				continue
+			}
+			if k := strings.LastIndex(w.id, ">"); k >= 0 && !visible[lf.id+"@"+w.id[k+1:]] {
+				// the innermost position does not show the leaf's issue on its own: nothing to predict the chain from
+				o.Count("skipped:leaf-issue-not-visible:" + w.id)
+				continue
+			}
+			visible[site] = true
 			for mask := 0; mask < 32; mask++ {
 				if mask&^appl != 0 {
 					continue
+				}
+				if isChain(w.id) && mask != 0 && mask != appl && mask&(mask-1) != 0 {
+					continue // random chains: nothing, each source alone, all together
 				}
 				winner, is, found := runCell(lf, w, mask)
 				op := fmt.Sprintf("c18 wire %s %s %s %s %s # %s with S = %s", site, lf.kind, w.id, maskStr(appl), maskStr(mask), w.desc, lf.repro)
@@ -524,7 +596,7 @@ func run(c hx.Config) error {
 				wiring = append(wiring, fmt.Sprintf("%s\t%s\t%s\t%s\t%s\t%s\t%s", site, lf.kind, lf.raiser, w.id, maskStr(appl), maskStr(mask), winner))
 				if found && mask == 0 {
 					raw := rawFromIssue(is, w.in(lf.input))
-					catalogue[kindKey(raw.Code, raw.Properties)] = raw
+					catalogue["site:"+kindKey(raw.Code, raw.Properties)] = raw
 				}
 			}
 		}
@@ -537,7 +609,7 @@ func run(c hx.Config) error {
 			if strings.Contains(w.id, ">") {
 				continue
 			}
-			if base, _, _ := runCell(lf, w, 0); base == "panic" {
+			if !visible[lf.id+"@"+w.id] {
 				continue
 			}
 			appl := srcP | srcG | srcL
@@ -580,75 +652,69 @@ func run(c hx.Config) error {
 		return err
 	}
 
+	// which FinalizeIssue call resolved the leaf's message (dynamic link to the static catalogue of sites.go)
+	var reach []string
+	for _, lf := range lvs {
+		for _, w := range one {
+			fin, outer, _ := captureReach(lf, w)
+			if fin == "" {
+				fin, outer = "-", "-" // no map was consulted: the message was preset before the chain
+			}
+			reach = append(reach, fmt.Sprintf("%s@%s\t%s\t%s", lf.id, w.id, fin, outer))
+		}
+	}
+	if err := os.WriteFile(c.OutDir+"/reach.txt", []byte(strings.Join(reach, "\n")+"\n"), 0o644); err != nil {
+		return err
+	}
+
+	// issue-dependent error maps
+	seenLines := depCells(c, o, lvs, one, visible)
+	if err := os.WriteFile(c.OutDir+"/seen.txt", []byte(strings.Join(seenLines, "\n")+"\n"), 0o644); err != nil {
+		return err
+	}
+
 	// raw issues as the library hands them to a global error map (real Properties), captured by a recording map
 	core.SetConfig(nil)
 	core.SetConfig(&core.ZodConfig{CustomError: func(raw core.ZodRawIssue) string {
-		catalogue[kindKey(raw.Code, raw.Properties)] = raw
+		catalogue["site:"+kindKey(raw.Code, raw.Properties)] = raw
 		return ""
 	}})
 	for _, lf := range lvs {
-		for _, w := range wrs {
+		for _, w := range one {
 			hx.Safely(func() {
 				_, _ = w.wrap(lf.build(nil, nil)).ParseAny(w.in(lf.input), &core.ParseContext{Error: func(raw core.ZodRawIssue) string {
-					catalogue[kindKey(raw.Code, raw.Properties)] = raw
+					catalogue["site:"+kindKey(raw.Code, raw.Properties)] = raw
 					return ""
 				}})
 			})
 		}
 	}
 	core.SetConfig(nil)
-	// every string format the locales name, and every sizable origin
-	for f := range locales.FormatNounsDe {
-		catalogue["invalid_format:"+f] = core.ZodRawIssue{Code: core.InvalidFormat, Input: "x", Properties: map[string]any{"format": f}}
-	}
-	for _, f := range []string{"starts_with", "ends_with", "includes", "regex", "lowercase", "uppercase"} {
-		catalogue["invalid_format:"+f] = core.ZodRawIssue{Code: core.InvalidFormat, Input: "x",
-			Properties: map[string]any{"format": f, "prefix": "q", "suffix": "q", "includes": "q", "pattern": "^q$"}}
-	}
-	for origin := range locales.SizableDe {
-		catalogue["too_small:"+origin] = core.ZodRawIssue{Code: core.TooSmall, Input: "x", Properties: map[string]any{"origin": origin, "minimum": 5, "inclusive": true}}
-		catalogue["too_big:"+origin] = core.ZodRawIssue{Code: core.TooBig, Input: "x", Properties: map[string]any{"origin": origin, "maximum": 5, "inclusive": true}}
-	}
-	for _, origin := range []string{"number", "int", "float", "bigint", "date"} {
-		catalogue["too_small:"+origin] = core.ZodRawIssue{Code: core.TooSmall, Input: 1, Properties: map[string]any{"origin": origin, "minimum": 5, "inclusive": false}}
-		catalogue["too_big:"+origin] = core.ZodRawIssue{Code: core.TooBig, Input: 9, Properties: map[string]any{"origin": origin, "maximum": 5, "inclusive": false}}
-	}
-	for _, code := range []core.IssueCode{core.InvalidType, core.InvalidValue, core.InvalidFormat, core.InvalidUnion, core.InvalidKey,
-		core.InvalidElement, core.TooBig, core.TooSmall, core.NotMultipleOf, core.UnrecognizedKeys, core.Custom, core.InvalidSchema,
-		core.InvalidDiscriminator, core.IncompatibleTypes, core.MissingRequired, core.TypeConversion, core.NilPointer} {
-		catalogue[string(code)+":bare"] = core.ZodRawIssue{Code: code}
-	}
-
-	kinds := make([]string, 0, len(catalogue))
-	for k := range catalogue {
-		kinds = append(kinds, k)
-	}
-	sort.Strings(kinds)
-	locs := make([]string, 0, len(locales.DefaultLocales))
-	for l := range locales.DefaultLocales {
-		locs = append(locs, l)
-	}
-	sort.Strings(locs)
-	var loclines []string
-	for _, l := range locs {
-		f := locales.DefaultLocales[l]
-		for _, k := range kinds {
-			var msg string
-			if p := hx.Safely(func() { msg = f(catalogue[k]) }); p != "" {
-				msg = ""
-			}
-			ok := strings.TrimSpace(msg) != ""
-			o.Emit(fmt.Sprintf("c18 loc %s %s # locales.DefaultLocales[%q](raw issue of kind %s)", l, k, l, k), hx.B01(ok))
-			o.Count("locale:" + l)
-			loclines = append(loclines, fmt.Sprintf("%s\t%s\t%s", l, k, hx.B01(ok)))
+	// the parameter table: every variation that selects another text path of a locale formatter; the dictionaries' keys come
+	// from the translator (kinds file), with the German dictionaries as a floor
+	kk := kindKeys{}
+	if kindsPath != "" {
+		if kk, err = readKinds(kindsPath); err != nil {
+			return err
 		}
+	}
+	for f := range locales.FormatNounsDe {
+		kk.formats = append(kk.formats, f)
+	}
+	for og := range locales.SizableDe {
+		kk.sizable = append(kk.sizable, og)
+	}
+	for k, raw := range localeParams(kk) {
+		catalogue[k] = raw
+	}
+	nloc, nkinds, err := localeCells(o, catalogue, c.OutDir)
+	if err != nil {
+		return err
 	}
 	if err := os.WriteFile(c.OutDir+"/wiring.txt", []byte(strings.Join(wiring, "\n")+"\n"), 0o644); err != nil {
 		return err
 	}
-	if err := os.WriteFile(c.OutDir+"/locales.txt", []byte(strings.Join(loclines, "\n")+"\n"), 0o644); err != nil {
-		return err
-	}
+	locs, kinds := make([]struct{}, nloc), make([]struct{}, nkinds)
 	return o.Close(map[string]any{"sites": len(lvs) * len(wrs), "locales": len(locs), "kinds": len(kinds)})
 }
 
